@@ -296,12 +296,21 @@ async fn spawn(engine: nu::Engine, store: Store, task: GeneratorTask) {
                 // Close the channel immediately
             }
             PipelineData::Value(value, _) => {
-                if let Value::String { val, .. } = value {
-                    handle
-                        .block_on(async { append(store.clone(), &task, "recv", Some(val)).await })
-                        .unwrap();
-                } else {
-                    panic!("Unexpected Value type in PipelineData::Value");
+                // a single string, or a list value of strings (same as a list stream)
+                let vals = match value {
+                    Value::List { vals, .. } => vals,
+                    other => vec![other],
+                };
+                for value in vals {
+                    if let Value::String { val, .. } = value {
+                        handle
+                            .block_on(async {
+                                append(store.clone(), &task, "recv", Some(val)).await
+                            })
+                            .unwrap();
+                    } else {
+                        panic!("Unexpected Value type in PipelineData::Value");
+                    }
                 }
             }
             PipelineData::ListStream(mut stream, _) => {
